@@ -50,6 +50,15 @@ def dict_sizes(quick):
     return [1 << 16, 1 << 20, 64 << 20, 3 << 29] if quick else [1 << 12, 1 << 16, 1 << 20, 3 << 22, 64 << 20, 1 << 30, 3 << 29]
 
 
+def lzma2_dict_bytes(quick):
+    """LZMA2 dictionary property bytes: the whole domain 0..40 (thorough) or a spread including both ends (quick).
+    Bytes 38..40 declare 2 GiB, 3 GiB and 4 GiB - 1: amounts that do not fit the 32-bit log ("huge" files)."""
+    return [0, 1, 7, 12, 19, 30, 36, 37, 38, 39, 40] if quick else list(range(41))
+
+
+HUGE = 1 << 31
+
+
 def make_files(ctx, lz, coders, D):
     """(kind, label, data) for the single-threaded decoders."""
     rng = ctx.rng
@@ -57,11 +66,12 @@ def make_files(ctx, lz, coders, D):
     small = coders.rand_data(rng, 3000, "text")
     text = coders.rand_data(rng, 30000, "text")
     x1 = coders.encode_xz(small, preset=0)
-    for ds in dict_sizes(ctx.quick):
-        px, real = D.patch_xz_dict(x1, ds)
-        files.append(("stream", "xz-dict%d" % real, px))
-        if ds in (1 << 20, 3 << 29):
-            files.append(("auto", "auto-xz-dict%d" % real, px))
+    for db in lzma2_dict_bytes(ctx.quick):
+        real = 0xFFFFFFFF if db == 40 else (2 | (db & 1)) << (db // 2 + 11)
+        px, real = D.patch_xz_dict(x1, real)
+        files.append(("stream", "xz-dictbyte%d-%d%s" % (db, real, "-huge" if real >= HUGE else ""), px))
+        if db in (19, 37, 40):
+            files.append(("auto", "auto-xz-dictbyte%d%s" % (db, "-huge" if real >= HUGE else ""), px))
     # two Blocks with different needs (second larger, and second smaller), and two concatenated Streams
     x2 = coders.encode_xz(text, preset=0, block_size=10000)
     for a, b, c in ((1 << 16, 1 << 20, 1 << 18), (1 << 22, 1 << 16, 1 << 23)):
@@ -79,6 +89,12 @@ def make_files(ctx, lz, coders, D):
     for ds in dict_sizes(ctx.quick):
         files.append(("alone", "lzma-dict%d" % ds, D.patch_alone_dict(al, ds)))
     files.append(("auto", "auto-lzma-dict%d" % (1 << 22), D.patch_alone_dict(al, 1 << 22)))
+    # .lzma headers may declare any 32-bit size: odd sizes and the top of the domain
+    for ds in ([4097, (1 << 20) + 1] if ctx.quick else [1, 4095, 4097, (1 << 20) + 1, (3 << 28) + 5]):
+        files.append(("alone", "lzma-dict%d" % ds, D.patch_alone_dict(al, ds)))
+    for ds in ([0xFFFFFFFF, 0x80000000] if ctx.quick else [0xFFFFFFFF, 0xFFFFFFF1, 0xFFFFFFF0, 0x80000000, 0xC0000001]):
+        files.append(("alone", "lzma-dict%d-huge" % ds, D.patch_alone_dict(al, ds)))
+    files.append(("auto", "auto-lzma-dict%d-huge" % 0xFFFFFFFF, D.patch_alone_dict(al, 0xFFFFFFFF)))
     lzf = coders.test_file("good-1-v1.lz")
     for lg in ([12, 16, 24, 29] if ctx.quick else [12, 14, 16, 20, 24, 27, 29]):
         pl, real = D.patch_lzip_dict(lzf, lg, rng.choice([0, 3]) if lg > 12 else 0)
@@ -125,6 +141,13 @@ def st_runs(ctx, lz, coders, D, kind, label, data):
         return run.events
     ref = D.LimitedRun(kind, data, D.UNL, chunk=chunk).run()
     out.append((label + "|unlimited", [dict(e="Reset")] + fin(ref, None, False)))
+    if label.endswith("-huge"):
+        # the need is >= 2 GiB (logged as Unlimited): every limit below 2 GiB must stop the decoder before it asks
+        # the allocator for the dictionary, and lzma_memusage() must then report an amount above the limit
+        for lim in (1, BASE + 1, 1 << 20, 1 << 30, D.UNL - 1):
+            r = D.LimitedRun(kind, data, lim, chunk=chunk).run()
+            out.append((label + "|limit=%d" % lim, [dict(e="Reset")] + fin(r, ref, r.ret == lz.MEMLIMIT_ERROR)))
+        return out, ref, []
     # the sequence of needs: start at 1, raise to what lzma_memusage() reports, resume
     needs = []
     def raise_to_usage(run, u):
@@ -233,6 +256,64 @@ def estimate_events(ctx, lz, coders, D):
             "stream_encoder_mt slow consumer threads=%d preset=%d block_size=%d" % (threads, preset, bs))
         ctx.extra.setdefault("mt_encoder_slow_consumer", []).append(
             dict(threads=threads, block_size=bs, estimate=int(L.lzma_stream_encoder_mt_memusage(C.byref(mt))), peak=int(pk or 0)))
+    # histories: the estimate for the CURRENT options must also cover a handle that was used with other (bigger or
+    # smaller) options before - re-initialisation without lzma_end, lzma_filters_update to another chain,
+    # a decoder moving on to a Stream with another dictionary size
+    def reinit_case(what, fn, mk1, mk2, est2, coded1=True):
+        al = D.SizeAlloc(); c = lz.Coder(al)
+        if mk1(c) != lz.OK:
+            c.end(); return
+        if coded1:
+            lz.run_coder(c, data[:20000])
+        if mk2(c) != lz.OK:
+            c.end(); return
+        live = al.cur; al.take_peak()
+        lz.run_coder(c, data[:20000])
+        pk = max(live, al.take_peak())
+        c.end()
+        add(fn, est2, pk, "after re-initialisation: " + what)
+    pairs = [(6, 0), (0, 6), (3, 1)] if ctx.quick else [(6, 0), (0, 6), (3, 1), (9, 0), (1, 9), (6, 6 | lz.PRESET_EXTREME), (5, 2)]
+    for a, b in pairs:
+        reinit_case("easy_encoder preset %d -> %d" % (a & 31, b & 31), "lzma_easy_encoder_memusage",
+                    lambda c: c.init("lzma_easy_encoder", a, lz.CHECK_CRC32), lambda c: c.init("lzma_easy_encoder", b, lz.CHECK_CRC32),
+                    L.lzma_easy_encoder_memusage(b))
+        reinit_case("easy_encoder preset %d -> %d (unused)" % (a & 31, b & 31), "lzma_easy_encoder_memusage",
+                    lambda c: c.init("lzma_easy_encoder", a, lz.CHECK_CRC32), lambda c: c.init("lzma_easy_encoder", b, lz.CHECK_CRC32),
+                    L.lzma_easy_encoder_memusage(b), coded1=False)
+    big = dict(dict_size=8 << 20, mf=lz.MF_BT4, mode=lz.MODE_NORMAL, nice_len=64)
+    sml = dict(dict_size=1 << 16, mf=lz.MF_HC3, mode=lz.MODE_FAST, nice_len=32)
+    for (n1, o1), (n2, o2) in (((("big", big), ("small", sml)), (("small", sml), ("big", big)))):
+        for fid, fname in ((lz.FILTER_LZMA2, "lzma2"), (lz.FILTER_LZMA1, "lzma1")):
+            f1 = lz.make_filters([(fid, lz.lzma_opts(3, **o1))]); f2 = lz.make_filters([(fid, lz.lzma_opts(3, **o2))])
+            reinit_case("raw_encoder %s %s -> %s" % (fname, n1, n2), "lzma_raw_encoder_memusage",
+                        lambda c: c.init("lzma_raw_encoder", f1), lambda c: c.init("lzma_raw_encoder", f2), L.lzma_raw_encoder_memusage(f2))
+            comp2 = coders.encode_raw(data[:4000], f2)
+            al = D.SizeAlloc(); c = lz.Coder(al)
+            if c.init("lzma_raw_decoder", f1) == lz.OK and c.init("lzma_raw_decoder", f2) == lz.OK:
+                live = al.cur; al.take_peak(); lz.run_coder(c, comp2)
+                add("lzma_raw_decoder_memusage", L.lzma_raw_decoder_memusage(f2), max(live, al.take_peak()),
+                    "after re-initialisation: raw_decoder %s %s -> %s" % (fname, n1, n2))
+            c.end()
+        # lzma_filters_update to the other chain before the first Block, then code
+        g1 = lz.make_filters([(lz.FILTER_LZMA2, lz.lzma_opts(3, **o1))]); g2 = lz.make_filters([(lz.FILTER_LZMA2, lz.lzma_opts(3, **o2))])
+        reinit_case("stream_encoder lzma_filters_update %s -> %s" % (n1, n2), "lzma_raw_encoder_memusage",
+                    lambda c: c.init("lzma_stream_encoder", g1, lz.CHECK_CRC32),
+                    lambda c: L.lzma_filters_update(C.byref(c.strm), g2), L.lzma_raw_encoder_memusage(g2), coded1=False)
+        # a decoder going from a Stream with one dictionary size to a Stream with another: at the end it holds
+        # what the last Block needs, and lzma_memusage() says so
+        xs = {"big": D.patch_xz_dict(coders.encode_xz(data[:3000], preset=0), 8 << 20)[0],
+              "small": D.patch_xz_dict(coders.encode_xz(data[:3000], preset=0), 1 << 18)[0]}
+        al = D.SizeAlloc(); c = D.make_decoder("stream", al, D.UNL, b"")
+        both = xs[n1] + xs[n2]
+        ib = lz.Buf(len(both), both); ob = lz.Buf(1 << 16); s = c.strm
+        s.next_in = ib.addr; s.avail_in = len(xs[n1]); s.next_out = ob.addr; s.avail_out = 1 << 16
+        c.code_raw(lz.RUN)
+        al.take_peak()
+        s.avail_in = len(xs[n2]); s.next_out = ob.addr; s.avail_out = 1 << 16
+        c.code_raw(lz.RUN)
+        add("lzma_memusage", L.lzma_memusage(C.byref(s)), max(al.cur, al.take_peak()) if n1 == "small" else al.cur,
+            "stream_decoder after Streams with %s then %s dictionary" % (n1, n2))
+        c.end()
     # lzma_index_memusage(streams, blocks) vs an index really built (lzma_index_memused and the allocator)
     for streams, blocks in ([(1, 0), (1, 1), (1, 513), (3, 700)] if ctx.quick else [(1, 0), (1, 1), (1, 512), (1, 513), (3, 700), (7, 5000), (40, 3)]):
         al = D.SizeAlloc(); cur = None
